@@ -157,20 +157,7 @@ theorem step_other_g {a : Agent} (hi : Inv a) (hst : a.started = true) (e : Ev) 
           split
           · exact G.refl _ _ _ _ _
           · rename_i p hp
-            have hiss : issueOf a (.renominate now la ri v) = some (v, la, r.addr) := by
-              have h1 : a.controlling = true := by simpa using hctl
-              have h2 : a.cfg.enableRenomination = true := by simpa using hen
-              simp only [issueOf, h1, h2, hl, hr, hp, Bool.and_self, if_true, Option.isSome_some]
-            rw [hiss]
-            have hla : l.addr = la := (localByAddr_some hl).2
-            have h := sendRequest_g (wa := true) (iss := some (v, la, r.addr)) a now l r true
-              (if v > 0 then some v else none) (by
-                by_cases hv : v > 0
-                · rw [if_pos hv]; exact Or.inr ⟨v, rfl, by rw [hla]⟩
-                · rw [if_neg hv]; exact Or.inl rfl)
-            generalize a.sendRequest now l r true (if v > 0 then some v else none) = s1 at h ⊢
-            obtain ⟨a1, o1⟩ := s1
-            exact h.then (b := a1) (G.of_eq rfl rfl rfl rfl (fun _ h => h) rfl)
+            exact (issueRequest_g (wa := true) a now l r v).w
         · exact G.refl _ _ _ _ _
   | restart now u p => cases hk
   | close => cases hk
